@@ -190,7 +190,7 @@ pub struct Prog {
 pub const PROGRAMS: [Prog; 6] = [
     Prog {
         name: "refs",
-        text: "let @obj = { 'id! int, 'name str };\nlet @list = [@obj];\nlet tree = rec x { 'value @obj, 'children [x] };\nres /objs on get -> <@list>;\nres /objs/{ 'id int } on get -> <@obj>, put : <@obj> -> <@obj>;\nres /tree on get -> <tree>;\n",
+        text: "let @obj = { 'id! int, 'name str };\nlet @list = [@obj];\nlet tree = rec x { 'value @obj, 'children [x] };\nres /objs on get -> <@list>;\nres /objs/{ 'id int } on get -> <@obj>, put : <@obj> -> <@obj>;\nres /tree on (get -> <tree>) `tags: [from-the-program, another]`;\n",
     },
     Prog {
         name: "empty",
@@ -772,7 +772,7 @@ impl Engine for C14 {
     }
     fn rule(&self) -> String {
         format!(
-            "base documents are built from an index: 17 independent optional features ({}) x servers in {{absent, one, two with variables}} = 3*2^17 YAML texts, each a valid OpenAPI 3.0 object (the `paths` feature adds one path no program has, one that collides with a program path and an `x-` extension directly under `paths`; the `schemas` feature adds one schema no program has and one named like a program's `@obj`); every base is merged with each program of a menu of six accepted programs (refs: `@` components, an implicit hash-* component referred to from a resource only, and colliding path; empty: no resource at all; plain: no component; rec: implicit hash-* component; paths: several paths, methods and statuses; headers: header and query parameters) through the real Builder::with_base + serde_yaml (in-process), and the sub-lattice spanned by the first k of the ten features that touch what the merge writes (paths, the eight components members, the root extension; the others absent, two servers) through the real `oal-cli -b`. Checked per merge: strip(out) == strip(print(parse(base))) on serde_yaml values, out.paths and out.components.schemas equal those of the same program without a base, no top-level / info.* / components.* key of the raw base text disappears. Every case is non-trivial; distinct = distinct vectors of output texts. states = base documents, transitions = merges checked",
+            "base documents are built from an index: 17 independent optional features ({}) x servers in {{absent, one, two with variables}} = 3*2^17 YAML texts, each a valid OpenAPI 3.0 object (the `paths` feature adds one path no program has, one that collides with a program path and an `x-` extension directly under `paths`; the `schemas` feature adds one schema no program has and one named like a program's `@obj`); every base is merged with each program of a menu of six accepted programs (refs: `@` components, an implicit hash-* component referred to from a resource only, an operation with tags the base does not declare, and colliding path; empty: no resource at all; plain: no component; rec: implicit hash-* component; paths: several paths, methods and statuses; headers: header and query parameters) through the real Builder::with_base + serde_yaml (in-process), and the sub-lattice spanned by the first k of the ten features that touch what the merge writes (paths, the eight components members, the root extension; the others absent, two servers) through the real `oal-cli -b`. Checked per merge: strip(out) == strip(print(parse(base))) on serde_yaml values, out.paths and out.components.schemas equal those of the same program without a base, no top-level / info.* / components.* key of the raw base text disappears. Every case is non-trivial; distinct = distinct vectors of output texts. states = base documents, transitions = merges checked",
             FEATURES.join(", ")
         )
     }
